@@ -1,10 +1,7 @@
 //! Verification harness for Layout21: `harness <Cxx> [--tier quick|thorough] [--replay FILE]`
-mod engine;
+use harness::{engine, props};
 #[global_allocator]
 static ALLOC: engine::alloc::Counting = engine::alloc::Counting;
-mod gen;
-mod props;
-mod refmodel;
 
 use engine::{Run, Tier};
 
@@ -23,6 +20,16 @@ fn main() {
         }
         return;
     }
+    if args.first().map(|s| s.as_str()) == Some("--fuzz-plan") && args.len() == 2 {
+        for (sub, words, cost) in props::fuzz_plan(&args[1]) {
+            println!("{} {} {}", sub, words, cost);
+        }
+        return;
+    }
+    if args.first().map(|s| s.as_str()) == Some("--dump-choice-corpus") && args.len() == 5 {
+        props::dump_choice_corpus(&args[1], &args[2], &args[3], args[4].parse().unwrap_or(64));
+        return;
+    }
     if args.is_empty() {
         eprintln!("usage: harness <Cxx> [--tier quick|thorough] [--replay FILE]");
         std::process::exit(2);
@@ -34,6 +41,7 @@ fn main() {
     };
     let mut replay: Option<String> = None;
     let mut inner = false;
+    let mut minimize = false;
     let mut i = 1;
     while i < args.len() {
         match args[i].as_str() {
@@ -42,6 +50,7 @@ fn main() {
                 tier = if args.get(i).map(|s| s.as_str()) == Some("thorough") { Tier::Thorough } else { Tier::Quick };
             }
             "--inner" => inner = true,
+            "--minimize" => minimize = true,
             "--replay" => {
                 i += 1;
                 replay = args.get(i).cloned();
@@ -92,8 +101,57 @@ fn main() {
         if let Some(s) = engine::guard(|| (def.render)(&rp.sub, &rp.choices)).ok().flatten() {
             engine::emit(&format!("  case: {}", s));
         }
+        let stack_kb = (engine::journal::WORKER_STACK / 1024) as u64;
+        let mut rp = rp;
+        if minimize {
+            // Reduce a failing choice sequence found outside proptest (libFuzzer): shortest failing
+            // prefix, then words zeroed / halved greedily, each trial in a child process.
+            use engine::child::ChildOutcome as O;
+            let fails = |c: &Vec<u32>| !matches!(engine::child::run_batch(&prop, &rp.sub, &[c.clone()], 20, stack_kb).first(), Some(O::Ok) | Some(O::Watchdog) | None);
+            let mut cur = rp.choices.clone();
+            if fails(&cur) {
+                let (mut lo, mut hi) = (0usize, cur.len());
+                while lo < hi {
+                    let mid = (lo + hi) / 2;
+                    if fails(&cur[..mid].to_vec()) {
+                        hi = mid;
+                    } else {
+                        lo = mid + 1;
+                    }
+                }
+                if fails(&cur[..hi].to_vec()) {
+                    cur.truncate(hi);
+                }
+                let mut budget = 1500usize;
+                for round in 0..2 {
+                    for i in 0..cur.len() {
+                        if cur[i] == 0 || budget == 0 {
+                            continue;
+                        }
+                        budget -= 1;
+                        let mut t = cur.clone();
+                        t[i] = if round == 0 { 0 } else { cur[i] / 2 };
+                        if fails(&t) {
+                            cur = t;
+                        }
+                    }
+                }
+                while cur.last() == Some(&0) {
+                    cur.pop();
+                }
+                if let Ok(txt) = std::fs::read_to_string(&path) {
+                    if let Ok(mut v) = serde_json::from_str::<serde_json::Value>(&txt) {
+                        v["choices"] = serde_json::Value::from(cur.clone());
+                        v["minimized_from_words"] = serde_json::Value::from(rp.choices.len());
+                        let _ = std::fs::write(&path, serde_json::to_string_pretty(&v).unwrap_or(txt));
+                    }
+                }
+                engine::emit(&format!("  minimized: {} -> {} words", rp.choices.len(), cur.len()));
+                rp.choices = cur;
+            }
+        }
         // The bare oracle, without proptest, in a child process (a crash must not take the report with it)
-        let out = engine::child::run_batch(&prop, &rp.sub, &[rp.choices.clone()], 60, (engine::journal::WORKER_STACK / 1024) as u64);
+        let out = engine::child::run_batch(&prop, &rp.sub, &[rp.choices.clone()], 60, stack_kb);
         engine::child::cleanup_scratch();
         use engine::child::ChildOutcome as O;
         let code = match out.first() {
